@@ -22,7 +22,7 @@ CONSTANTS MaxFeatures,     \* optional features per program
           Allowed          \* kinds of optional features that may be added: subset of AllFeatures
 AllFeatures == {"steps", "comp", "cons", "lmi", "metrics", "part", "lmimetric", "unsent"}
 LmiSize(code) == CASE code = "L1" -> 1 [] code = "S3" -> 3 [] OTHER -> 2
-ConsCodes == {"pi", "pe", "pg", "pm", "pd", "fi", "ci", "dup", "dupf", "se", "pS"}   \* se: a direction of prescribed small size |e|^2 = 1/4096; dup: the SAME constraint object declared twice
+ConsCodes == {"pi", "pe", "pg", "pm", "pd", "fi", "ci", "dup", "dupf", "se", "pS", "pq"}   \* pq: an equality with a non-zero constant; se: a direction of prescribed small size |e|^2 = 1/4096; dup: the SAME constraint object declared twice
 LmiCodes == {"S2", "D2", "L1", "N2", "S3", "F2", "V2", "B2", "Z2", "C2"}   \* C2: a non-zero CONSTANT off the diagonal;   \* Z2: an entry whose mirrored inner-product key carries an explicit zero;   \* B2 declares TWO matrices (a re-used numpy buffer)
 ClassLmis(c) == IF c \in {4, 6, 7} THEN 1 ELSE IF c = 8 THEN 2 ELSE 0
 VARIABLES prog, solves, phase, epoch, sent, native, dualpos, cache, nClassLmi, nPartRows, hist
@@ -52,7 +52,7 @@ Feature ==
 Rep(x, n) == [i \in 1..n |-> x]
 Sc(src) == [src |-> src, k |-> "sc", n |-> 1]
 Lm(src, n) == [src |-> src, k |-> "lmi", n |-> n]
-PepCons(p) == SelectSeq(p.ucons, LAMBDA c : c \in {"pi", "pe", "pg", "pm", "pd", "dup", "dupf", "se", "pS"})     \* pS: coefficients 2^16
+PepCons(p) == SelectSeq(p.ucons, LAMBDA c : c \in {"pi", "pe", "pg", "pm", "pd", "dup", "dupf", "se", "pS", "pq"})     \* pS: coefficients 2^16
 DupPep(p) == SelectSeq(p.ucons, LAMBDA c : c \in {"dup", "se"})      \* codes that put two rows on the problem
 FunCons(p) == SelectSeq(p.ucons, LAMBDA c : c \in {"fi", "ci", "dupf"}) \o (IF p.steps \in {"gi", "gI"} THEN <<"step">> ELSE IF p.steps = "gl" THEN <<"step", "step">> ELSE <<>>)   \* gl: exact line search (two orthogonality rows)
 PepLmis(p) == SelectSeq(p.lmis, LAMBDA c : c # "F2")
